@@ -88,7 +88,8 @@ def r1(cx, g):
         items = a[1] if a[0] == "seq" else [a]
         for i, x in enumerate(items):
             if "type_" in g.calls(x) and not (x == ("call", "type_") and i == len(items) - 1): rl = False
-    cx.check(rl, "C11.R1", "grammar:type_:right-linear", site("type_"), "type_ calls itself outside tail position: its prefix language is not regular and cannot be compared", note_ok="self calls only in tail position")
+    if rl: cx.ok("C11.R1", "grammar:type_:right-linear", site("type_"), "self calls only in tail position")
+    else: cx.note("C11.R1", "grammar:type_:right-linear", site("type_"), "type_ calls itself outside tail position: decided by bounded enumeration instead of automata")
     if rl:
         te = g.inline(t, stack=("type_",), stop=("type_", "btype"))
         # replace remaining calls: btype -> symbol, type_ -> self
@@ -104,7 +105,16 @@ def r1(cx, g):
             cx.check(w2 is None, "C11.R1", "grammar:type_:prefix-superset-of-spec", site("type_"),
                      "documented type expression %r is rejected" % show(w2), note_ok="((?)?([]|[string]))*(?)?btype <= type_", witness={"separating_input": show(w2)})
         except peg.GrammarError as ex:
-            cx.bad("C11.R1", "grammar:type_:compile", site("type_"), "type_ cannot be compiled to an automaton: %s" % ex)
+            rl = False; cx.notes.append("C11.R1: type_ is not handled by the exact engine (%s): falling back to bounded enumeration" % ex)
+    if not rl:
+        # the rule uses a construct the exact engine does not cover (lookahead, non-tail recursion): compare PEG semantics with the
+        # reference on every token string up to 7 tokens (bounded, exhaustive within the bound)
+        rules2 = dict(g.rules); rules2["btype"] = ("lit", B)
+        nstr, diff = peg.bounded_compare(g, "type_", REF_TYPE, ["?", "[]", "[string]", B], 7, rules=rules2)
+        show = lambda w: w.replace(B, "<btype>")
+        cx.check(diff is None, "C11.R1", "grammar:type_:prefix-language-bounded", site("type_"),
+                 "type expression %r is %s by the grammar but %s by the documented type language" % (show(diff[0]) if diff else "", "accepted" if diff and diff[1] else "rejected", "accepted" if diff and diff[2] else "rejected"),
+                 note_ok="PEG semantics of type_ agree with ((?)?([]|[string]))*(?)?btype on all %d token strings up to 7 tokens (bounded)" % nstr, witness={"separating_input": show(diff[0]) if diff else None})
     # ---- keyword tables
     def lits_of(e):
         out = []
